@@ -1,4 +1,4 @@
-(* C14 -- assembly: get_full_coeffs rows are the pulses' step functions on every merged interval;
+(* C14 -- assembly: get_full_coeffs_v1 rows are the pulses' step functions on every merged interval;
    the slices of run_analytically are the piecewise-constant H(t) *)
 From Coq Require Import String.
 From Coq Require Import List QArith Bool Arith Lia Lqa Sorted.
@@ -86,7 +86,7 @@ Proof.
 Qed.
 
 Lemma pad_coeff_ok cf tl :
-  (2 <= length tl)%nat -> (length cf + 1 = length tl \/ length cf = length tl)%nat ->
+  (1 <= length tl)%nat -> (length cf + 1 = length tl \/ length cf = length tl)%nat ->
   length (pad_coeff cf tl) = length tl /\
   nth_error (pad_coeff cf tl) (length tl - 1) = Some 0 /\
   forall t, step_fn tl (pad_coeff cf tl) t = step_fn tl cf t.
@@ -161,10 +161,10 @@ Section Row.
     length (pad cf tl) = length tl ->
     nth_error (pad cf tl) (length tl - 1) = Some 0 ->
     (forall t, step_fn tl (pad cf tl) t = step_fn tl cf t) ->
-    exists row, fill_with pad tol cf tl full = Some row /\ ok_out (step_fn tl cf) full row.
+    exists row, fill_with_v1 pad tol cf tl full = Some row /\ ok_out (step_fn tl cf) full row.
   Proof.
     intros HsF HiF HsT HiT Hlen2 Hcov Hplen Hpz Hpst.
-    unfold fill_with. destruct full as [|f0 full'] eqn:EF.
+    unfold fill_with_v1, fill_gen. destruct full as [|f0 full'] eqn:EF.
     { exists []. split; [reflexivity|constructor]. }
     rewrite <- EF in *. clear EF f0 full'.
     destruct tl as [|o0 ost]; [cbn in Hlen2; lia|].
@@ -211,12 +211,12 @@ Definition pad_good (pad : list Q -> list Q -> list Q) (p : pulse) : Prop :=
   | _, _ => True
   end.
 
-Lemma inputs_okb_unpack tol ps : inputs_okb tol ps = true ->
-  0 <= tol /\ (forall p, In p ps -> pulse_okb p = true) /\
+Lemma inputs_okb_v1_unpack tol ps : inputs_okb_v1 tol ps = true ->
+  0 <= tol /\ (forall p, In p ps -> pulse_okb_v1 p = true) /\
   (forall x y, In x (all_points ps) -> In y (all_points ps) -> x == y \/ tol < x - y \/ tol < y - x) /\
   all_tlists ps <> [].
 Proof.
-  unfold inputs_okb. intros H.
+  unfold inputs_okb_v1. intros H.
   apply andb_true_iff in H. destruct H as [H H4].
   apply andb_true_iff in H. destruct H as [H H3].
   apply andb_true_iff in H. destruct H as [H1 H2].
@@ -225,21 +225,21 @@ Proof.
   destruct (all_tlists ps); [discriminate|discriminate].
 Qed.
 
-Lemma pulse_okb_valid p : pulse_okb p = true -> pulse_valid p = true.
+Lemma pulse_okb_v1_valid p : pulse_okb_v1 p = true -> pulse_valid p = true.
 Proof.
-  unfold pulse_okb, pulse_valid. destruct (pco p) as [| |cf]; auto.
+  unfold pulse_okb_v1, pulse_valid. destruct (pco p) as [| |cf]; auto.
   destruct (ptl p) as [tl|]; [|discriminate].
   intros H. apply andb_true_iff in H. destruct H as [_ H]. exact H.
 Qed.
 
-Lemma coeffs_ok_with pad tol ps :
-  inputs_okb tol ps = true -> (forall p, In p ps -> pad_good pad p) ->
+Lemma coeffs_ok_with_v1 pad tol ps :
+  inputs_okb_v1 tol ps = true -> (forall p, In p ps -> pad_good pad p) ->
   exists full rows,
     get_full_tlist tol ps = Some full /\
-    full_coeffs_with (fill_with pad) tol ps = Some rows /\
+    full_coeffs_with (fill_with_v1 pad) tol ps = Some rows /\
     Forall2 (fun p row => ok_out (pulse_fn p) full row) ps rows.
 Proof.
-  intros Hok Hpad. destruct (inputs_okb_unpack _ _ Hok) as [Htol [Hp [Hsep Hne]]].
+  intros Hok Hpad. destruct (inputs_okb_v1_unpack _ _ Hok) as [Htol [Hp [Hsep Hne]]].
   destruct (get_full_tlist tol ps) as [full|] eqn:Efull.
   2:{ unfold get_full_tlist in Efull. destruct (all_tlists ps); [congruence|discriminate]. }
   exists full.
@@ -248,13 +248,13 @@ Proof.
   pose proof (full_tlist_complete _ _ _ Htol Hsep Efull) as Hcomp.
   unfold full_coeffs_with.
   assert (Hval : forallb pulse_valid ps = true).
-  { apply forallb_forall. intros p Hin. apply pulse_okb_valid. auto. }
+  { apply forallb_forall. intros p Hin. apply pulse_okb_v1_valid. auto. }
   rewrite Hval, Efull.
   assert (Hps : ps <> []) by (intro E; subst ps; apply Hne; reflexivity).
-  destruct (mapM_Forall2 (row_with (fill_with pad) tol full)
+  destruct (mapM_Forall2 (row_with (fill_with_v1 pad) tol full)
               (fun p row => ok_out (pulse_fn p) full row) ps) as [rows [Hrows HF]].
   { apply Forall_forall. intros p Hin. specialize (Hp p Hin). specialize (Hpad p Hin).
-    unfold pulse_okb in Hp. unfold pad_good in Hpad. unfold row_with, pulse_fn.
+    unfold pulse_okb_v1 in Hp. unfold pad_good in Hpad. unfold row_with, pulse_fn.
     destruct (pco p) as [|b|cf] eqn:Eco.
     - destruct (ptl p); [discriminate|]. eexists. split; [reflexivity|]. apply ok_out_repeat.
     - eexists. split; [reflexivity|]. apply ok_out_repeat.
@@ -271,19 +271,19 @@ Proof.
   exists rows. destruct ps; [congruence|]. split; [reflexivity|]. split; [exact Hrows|exact HF].
 Qed.
 
-Lemma pad_good_fixed p : pulse_okb p = true -> pad_good pad_coeff p.
+Lemma pad_good_fixed_v1 p : pulse_okb_v1 p = true -> pad_good pad_coeff p.
 Proof.
-  unfold pulse_okb, pad_good. destruct (pco p) as [| |cf]; auto.
+  unfold pulse_okb_v1, pad_good. destruct (pco p) as [| |cf]; auto.
   destruct (ptl p) as [tl|]; auto. intros H.
   apply andb_true_iff in H. destruct H as [H Hlen].
   apply andb_true_iff in H. destruct H as [_ Hl2]. apply Nat.leb_le in Hl2.
-  apply pad_coeff_ok; [exact Hl2|].
+  apply pad_coeff_ok; [lia|].
   apply orb_true_iff in Hlen. destruct Hlen as [E|E]; apply Nat.eqb_eq in E; auto.
 Qed.
 
-Lemma pad_good_v0 p : pulse_okb p = true -> no_tail_sampleb p = true -> pad_good pad_coeff_v0 p.
+Lemma pad_good_v0 p : pulse_okb_v1 p = true -> no_tail_sampleb p = true -> pad_good pad_coeff_v0 p.
 Proof.
-  unfold pulse_okb, no_tail_sampleb, pad_good. destruct (pco p) as [| |cf]; auto.
+  unfold pulse_okb_v1, no_tail_sampleb, pad_good. destruct (pco p) as [| |cf]; auto.
   destruct (ptl p) as [tl|]; auto. intros H Hg.
   apply andb_true_iff in H. destruct H as [H Hlen].
   apply andb_true_iff in H. destruct H as [_ Hl2]. apply Nat.leb_le in Hl2.
@@ -295,24 +295,24 @@ Proof.
   - apply Qsame_eq. exact Hg.
 Qed.
 
-Lemma coeffs_ok tol ps :
-  inputs_okb tol ps = true ->
+Lemma coeffs_ok_v1 tol ps :
+  inputs_okb_v1 tol ps = true ->
   exists full rows,
-    get_full_tlist tol ps = Some full /\ get_full_coeffs tol ps = Some rows /\
+    get_full_tlist tol ps = Some full /\ get_full_coeffs_v1 tol ps = Some rows /\
     Forall2 (fun p row => ok_out (pulse_fn p) full row) ps rows.
 Proof.
-  intros H. apply coeffs_ok_with; [exact H|].
-  intros p Hin. apply pad_good_fixed. destruct (inputs_okb_unpack _ _ H) as [_ [Hp _]]. auto.
+  intros H. apply coeffs_ok_with_v1; [exact H|].
+  intros p Hin. apply pad_good_fixed_v1. destruct (inputs_okb_v1_unpack _ _ H) as [_ [Hp _]]. auto.
 Qed.
 
 Lemma coeffs_ok_v0 tol ps :
-  inputs_okb tol ps = true -> forallb no_tail_sampleb ps = true ->
+  inputs_okb_v1 tol ps = true -> forallb no_tail_sampleb ps = true ->
   exists full rows,
     get_full_tlist tol ps = Some full /\ get_full_coeffs_v0 tol ps = Some rows /\
     Forall2 (fun p row => ok_out (pulse_fn p) full row) ps rows.
 Proof.
-  intros H Hg. apply coeffs_ok_with; [exact H|].
-  intros p Hin. destruct (inputs_okb_unpack _ _ H) as [_ [Hp _]].
+  intros H Hg. apply coeffs_ok_with_v1; [exact H|].
+  intros p Hin. destruct (inputs_okb_v1_unpack _ _ H) as [_ [Hp _]].
   rewrite forallb_forall in Hg. apply pad_good_v0; auto.
 Qed.
 
@@ -400,21 +400,4 @@ Lemma hslices_of_slices M madd mscale drift ops fs F sl :
 Proof.
   induction 1 as [|t|t1 t2 F dt cs sl Hdt Hc Hok IH]; cbn; try constructor; auto.
   intros t Ha Hb. unfold H_of. rewrite <- (Hc t Ha Hb). reflexivity.
-Qed.
-
-Lemma run_slices_ok tol ps :
-  inputs_okb tol ps = true ->
-  exists full sl,
-    get_full_tlist tol ps = Some full /\ run_slices tol ps = Some sl /\
-    slices_ok (map pulse_fn ps) full sl /\
-    Forall (fun s => 0 < fst s) sl /\
-    (forall t0 F', full = t0 :: F' -> total_time sl == last full t0 - t0).
-Proof.
-  intros H. destruct (coeffs_ok _ _ H) as [full [rows [Hf [Hr HF]]]].
-  destruct (slices_okL _ _ _ HF) as [sl [Hsl Hok]].
-  exists full, sl. split; [exact Hf|]. split.
-  - unfold run_slices, run_slices_with. unfold get_full_coeffs in Hr. rewrite Hf, Hr. exact Hsl.
-  - split; [exact Hok|]. split.
-    + eapply slices_positive; eauto. eapply full_tlist_sorted; eauto.
-    + eapply slices_total; eauto.
 Qed.
